@@ -8,8 +8,9 @@
    Quirks of the code that are modelled as they are:
    - only bytes read through nextChar are checked to be ASCII; bytes inside strings are copied verbatim, no
      UTF-8 validation (invalid sequences only matter for the sort key, where each bad byte is U+FFFD);
-   - a \uXXXX escape with a surrogate value must be followed by another \uXXXX escape, but the pair is NOT
-     checked: utf16.DecodeRune yields U+FFFD for a bad pair (so "\udc00\ud800" is accepted as U+FFFD);
+   - a \uXXXX escape with a surrogate value must be followed by another \uXXXX escape and the two must form a
+     (high, low) pair: utf16.DecodeRune yielding U+FFFD is an error (commit 1d72439; before that repair a bad
+     pair was silently accepted as U+FFFD);
    - the duplicate test compares sort keys (UTF-16 of the decoded runes), not the raw names;
    - number tokens are whatever strconv.ParseFloat accepts. *)
 From Coq Require Import String List NArith ZArith Bool.
@@ -86,7 +87,9 @@ Fixpoint parse_string (s : bytes) (acc : bytes) : option (bytes * bytes) :=
                   if (bN b =? 0x5c) && (bN u =? 0x75) then
                     match hex4 k1 k2 k3 k4 with
                     | None => None
-                    | Some u2 => parse_string r3 (rev_append (utf8_encode (utf16_decode_pair u1 u2)) acc)
+                    | Some u2 =>
+                      if utf16_decode_pair u1 u2 =? rune_error then None     (* Invalid surrogate pair *)
+                      else parse_string r3 (rev_append (utf8_encode (utf16_decode_pair u1 u2)) acc)
                     end
                   else None                                   (* Missing surrogate *)
                 | _ => None
